@@ -18,6 +18,15 @@ theorem tt_isDoc : (Gen.tt.isDoc && Gen.ttUses323) = true := by decide +kernel
 theorem doi_isDoc : (Gen.doi.files == docDoi.files && Gen.doi.families == docDoi.families) = true := by
   decide +kernel
 
+/-- entry bounds `|p| + 3|q| ≤ K` for the norm argument of `Fam.det_gap_of_bounded` -/
+theorem fam323_within : entriesWithin Gen.fam323.planes 1 = true := by decide +kernel
+theorem fam423_within : entriesWithin Gen.fam423.planes 1 = true := by decide +kernel
+theorem fam523_within : entriesWithin Gen.fam523.planes 6 = true := by decide +kernel
+
+/-- the 323+ and 423 tables have no √5 part -/
+theorem fam323_rational : Gen.fam323.rational = true := by decide +kernel
+theorem fam423_rational : Gen.fam423.rational = true := by decide +kernel
+
 theorem fam323_detGap : detGap Gen.fam323.planes Gen.fam323.den = true := by decide +kernel
 theorem fam423_detGap : detGap Gen.fam423.planes Gen.fam423.den = true := by decide +kernel
 
